@@ -415,7 +415,7 @@ class SQLParser:
         if scanner.search_and_move_one_type_str("*"):
             return node.ASTWildcardExpression()
         if scanner.search(AMTMark.NAME, ".", "*"):
-            schema_name = scanner.pop_as_source()
+            schema_name = cls._unify_name(scanner.pop_as_source())
             scanner.move(2)
             return node.ASTWildcardExpression(table_name=schema_name)
         raise SqlParseError("无法解析为通配符表达式")
@@ -423,7 +423,7 @@ class SQLParser:
     @classmethod
     def _parse_wildcard_expression_with_table(cls, scanner: TokenScanner) -> node.ASTWildcardExpression:
         """直接解析为包含 schema 的通配符格式"""
-        schema_name = scanner.pop_as_source()
+        schema_name = cls._unify_name(scanner.pop_as_source())
         scanner.move(2)
         return node.ASTWildcardExpression(table_name=schema_name)
 
